@@ -71,17 +71,6 @@ def roles(ctx):
                 cal = prog.callee_of(b, call)
                 if cal is not None:
                     r.dir_updated = cal
-        # deprecated handler: callee whose result is stored under a name
-        for n in walk_no_nested(b.node):
-            if isinstance(n, ast.Assign) and isinstance(n.value, ast.Call):
-                g = prog.callee_of(b, n.value)
-                if g is not None and g.cls is enf and \
-                        len(n.value.args) == 1 \
-                        and g.name not in (r.loader.name,) and any(
-                            isinstance(x, ast.Attribute)
-                            and x.attr == 'deprecated_rule'
-                            for x in ast.walk(g.node)):
-                    r.deprecated = g
         for call, g in prog.callees(b):
             if isinstance(call, ast.Call) and g.cls is enf and any(
                     isinstance(x, ast.Call) and method_call(x, 'find_file')
@@ -94,21 +83,24 @@ def roles(ctx):
         raise AnalysisError('policy-directory walker not found')
     if r.dir_updated is None:
         raise AnalysisError('directory freshness test not found')
+    # deprecated-rule handler: the Enforcer method that consults the option
+    # enforce_new_defaults (the top-most one if a helper reads it too)
+    cands = [m for m in enf.methods.values() if m is not lr and any(
+        isinstance(x, ast.Attribute) and x.attr == 'enforce_new_defaults'
+        for x in ast.walk(m.node))]
+    if len(cands) > 1:
+        inner = set()
+        for m in cands:
+            for q, g in prog.region(m).items():
+                if g is not m and g in cands:
+                    inner.add(g.qual)
+        top = [m for m in cands if m.qual not in inner]
+        cands = top or cands
+    if cands:
+        r.deprecated = sorted(cands, key=lambda m: m.qual)[0]
     if r.deprecated is None:
-        # not called from load_rules (any more): find it by what it does
-        for m in enf.methods.values():
-            if m is lr or len(m.params) != 2:
-                continue
-            reads = any(isinstance(x, ast.Attribute)
-                        and x.attr == 'deprecated_rule'
-                        for x in ast.walk(m.node))
-            rets = [x for x in walk_no_nested(m.node)
-                    if isinstance(x, ast.Return) and x.value is not None
-                    and U(x.value).endswith('.check')]
-            if reads and rets:
-                r.deprecated = m
-    if r.deprecated is None:
-        raise AnalysisError('deprecated-rule handler not found')
+        raise AnalysisError('deprecated-rule handler (the method consulting '
+                            'enforce_new_defaults) not found')
     cache['load_roles'] = r
     return r
 
